@@ -522,7 +522,10 @@ func (a *asset) generateTimelineEntries(repID string, wt wrapTimes, atoMS int) s
 
 	// The availabilityTimeOffset may reach into the next loop(s) of the asset
 	// Add the offset in milliseconds before converting, so that "finished" is decided exactly
-	relStartTime, startWraps := normalizeToLoop((wt.startRelMS+atoMS)*rep.MediaTimescale/1000, rep.duration())
+	// The loop of the VoD representation starts at its first decode time, which need not be 0
+	vod0 := int(segs[0].StartTime)
+	relStartTime, startWraps := normalizeToLoop((wt.startRelMS+atoMS)*rep.MediaTimescale/1000-vod0, rep.duration())
+	relStartTime += uint64(vod0)
 	wt.startWraps += startWraps
 	relStartIdx := 0
 	if relStartTime < segs[0].EndTime {
@@ -540,7 +543,8 @@ func (a *asset) generateTimelineEntries(repID string, wt wrapTimes, atoMS int) s
 		wt.startWraps = 0
 	}
 
-	relNowTime, nowWraps := normalizeToLoop((wt.nowRelMS+atoMS)*rep.MediaTimescale/1000, rep.duration())
+	relNowTime, nowWraps := normalizeToLoop((wt.nowRelMS+atoMS)*rep.MediaTimescale/1000-vod0, rep.duration())
+	relNowTime += uint64(vod0)
 	wt.nowWraps += nowWraps
 	relNowIdx := 0
 	if relNowTime < segs[0].EndTime {
